@@ -937,21 +937,49 @@ class HistoryRecorder:
             cap.psnap = self.w.lb.snapshot(mdib)
         else:
             box = {}
+            main_thread = threading.current_thread()
 
-            def wrap(orig):
-                def during_request(*a, **k):
-                    res = orig(*a, **k)
-                    if not box:
-                        box['psnap'] = self.w.lb.snapshot(mdib)
-                        try:
-                            box['wires'] = self.tx(commit_during)
-                        except Exception as ex:  # noqa: BLE001
-                            box['error'] = ex
-                    return res
-                return during_request
-            with mock.patch.object(mdib, 'reconstruct_mdib_with_context_states', wrap(mdib.reconstruct_mdib_with_context_states)), \
-                    mock.patch.object(mdib, 'reconstruct_mdib', wrap(mdib.reconstruct_mdib)):
+            def in_window():
+                # the GetMdib handler has just released the provider's mdib_lock (snapshot taken), the answer is not built yet
+                box['psnap'] = self.w.lb.snapshot(mdib)
+                try:
+                    box['wires'] = self.tx(commit_during)
+                except Exception as ex:  # noqa: BLE001
+                    box['error'] = ex
+
+            class ProviderLockProxy:
+                """traced replacement of ProviderMdib.mdib_lock during the request: runs `in_window` right after the first
+                outermost release by the request handler thread"""
+
+                def __init__(self, real):
+                    self.real = real
+                    self.depth = threading.local()
+                    self.fired = False
+
+                def acquire(self, *a, **k):
+                    return self.real.acquire(*a, **k)
+
+                def release(self):
+                    self.real.release()
+
+                def __enter__(self):
+                    self.real.acquire()
+                    self.depth.n = getattr(self.depth, 'n', 0) + 1
+                    return self
+
+                def __exit__(self, *exc):
+                    self.depth.n -= 1
+                    self.real.release()
+                    if self.depth.n == 0 and not self.fired and threading.current_thread() is not main_thread:
+                        self.fired = True
+                        in_window()
+                    return False
+            real_lock = mdib.mdib_lock
+            mdib.mdib_lock = ProviderLockProxy(real_lock)
+            try:
                 cap = self.w.capture(h.abs, tx_before, wire_before)
+            finally:
+                mdib.mdib_lock = real_lock
             if 'error' in box or 'wires' not in box:
                 raise RuntimeError(f'transaction during GetMdib failed: {box.get("error")!r}')
             cap.psnap = box['psnap']
